@@ -1,1 +1,717 @@
-//! refpdf::content — not written yet.
+//! Content-stream parser, written from ISO 32000-1 §7.8.2 (content streams), §8.9.7
+//! (inline images) and the operator tables the Annex A summary points to (Tables 57, 59,
+//! 60, 61, 74, 77, 87, 92, 105, 107, 108, 109, 113, 320, 32). Independent of /repo.
+//!
+//! A content stream is a sequence of *instructions* in postfix form: operands (ordinary
+//! direct objects, §7.3, never indirect references or streams) followed by an operator,
+//! which is a keyword — a run of regular characters that is not a number and not one of
+//! `true false null`. `'` and `"` are regular characters and therefore ordinary keywords.
+//!
+//! API
+//! * [`parse_content`]: lenient — every keyword is an operator (known or not); `Err` only
+//!   when the byte string cannot be tokenised at all (unterminated string/array/dict,
+//!   stray closing delimiter, inline image without `EI`).
+//! * [`parse_content_strict`] / [`parse`] with `strict = true`: same operator list, plus an
+//!   [`Issue`] for everything a conforming writer must not produce: invalid tokens,
+//!   `NaN`/`inf`-like number tokens, unknown operators outside `BX … EX`, operand count /
+//!   type not matching the operator tables, indirect references as operands, operands left
+//!   over at the end, unbalanced `q/Q`, `BT/ET`, `BMC|BDC/EMC`, `BX/EX`.
+//! * Inline images become ONE [`Op`] with `operator == b"BI"` and
+//!   `operands == [Obj::Dict(parameters in source order), Obj::Str(raw image data)]`.
+//!   The data length is taken from `/L` (or `/Length`, PDF 2.0) when that lands exactly on
+//!   an `EI` keyword; otherwise the data ends at the first `<white-space>EI` that is followed by a
+//!   non-regular character or the end of the stream.
+//! * [`operand_spec`] gives the operand kinds of every operator of Annex A;
+//!   [`check_operands`] applies it (handles the variable-arity colour operators).
+//! * [`write_content`] serialises an operator list again (used to hand-build streams).
+
+use crate::syntax::{is_regular, is_ws, parse_number_token, write_obj, Dict, Obj, Parser};
+
+#[derive(Clone, PartialEq)]
+pub struct Op {
+    pub operator: Vec<u8>,
+    pub operands: Vec<Obj>,
+}
+
+impl std::fmt::Debug for Op {
+    fn fmt(&self, f: &mut std::fmt::Formatter<'_>) -> std::fmt::Result {
+        for o in &self.operands {
+            write!(f, "{o:?} ")?;
+        }
+        write!(f, "{}", String::from_utf8_lossy(&self.operator))
+    }
+}
+
+impl Op {
+    pub fn new(operator: &str, operands: Vec<Obj>) -> Op {
+        Op { operator: operator.as_bytes().to_vec(), operands }
+    }
+    pub fn is(&self, name: &str) -> bool {
+        self.operator == name.as_bytes()
+    }
+    pub fn name(&self) -> String {
+        String::from_utf8_lossy(&self.operator).into_owned()
+    }
+    /// operand `i` as a number (integer or real)
+    pub fn num(&self, i: usize) -> Option<f64> {
+        self.operands.get(i).and_then(|o| o.as_num())
+    }
+}
+
+/// Operand kinds used by the operator tables.
+#[derive(Debug, Clone, Copy, PartialEq, Eq)]
+pub enum Kind {
+    /// integer or real
+    Num,
+    /// integer only (`J`, `j`, `Tr`)
+    Int,
+    Name,
+    Str,
+    /// array of numbers (`d`)
+    NumArray,
+    /// array of strings and numbers (`TJ`)
+    TextArray,
+    /// property list: a name (resource) or an inline dictionary (`DP`, `BDC`)
+    Props,
+    /// dictionary (only the parameter dictionary of the `BI` pseudo-instruction)
+    Dict,
+    /// VARIABLE: 1..=32 numbers (`SC`, `sc`) — stands for the whole operand list
+    Components,
+    /// VARIABLE: 0..=32 numbers optionally followed by a name, at least one operand
+    /// (`SCN`, `scn`) — stands for the whole operand list
+    ComponentsOrPattern,
+}
+
+const NUM1: &[Kind] = &[Kind::Num];
+const NUM2: &[Kind] = &[Kind::Num, Kind::Num];
+const NUM3: &[Kind] = &[Kind::Num, Kind::Num, Kind::Num];
+const NUM4: &[Kind] = &[Kind::Num, Kind::Num, Kind::Num, Kind::Num];
+const NUM6: &[Kind] = &[Kind::Num, Kind::Num, Kind::Num, Kind::Num, Kind::Num, Kind::Num];
+const NONE: &[Kind] = &[];
+const NAME1: &[Kind] = &[Kind::Name];
+const INT1: &[Kind] = &[Kind::Int];
+
+/// Operand list of every content-stream operator (ISO 32000-1 Annex A and the tables it
+/// refers to). `None` for a keyword that is not an operator. For `SC sc SCN scn` the
+/// one-element slice is a variable-arity marker (see [`Kind`]); use [`check_operands`].
+/// `BI` describes the combined inline-image instruction this module produces; `ID`/`EI`
+/// never appear as separate operators in the output and map to the empty list.
+pub fn operand_spec(op: &[u8]) -> Option<&'static [Kind]> {
+    Some(match op {
+        // general graphics state, Table 57
+        b"w" => NUM1,
+        b"J" => INT1,
+        b"j" => INT1,
+        b"M" => NUM1,
+        b"d" => &[Kind::NumArray, Kind::Num],
+        b"ri" => NAME1,
+        b"i" => NUM1,
+        b"gs" => NAME1,
+        // special graphics state, Table 57
+        b"q" | b"Q" => NONE,
+        b"cm" => NUM6,
+        // path construction, Table 59
+        b"m" | b"l" => NUM2,
+        b"c" => NUM6,
+        b"v" | b"y" => NUM4,
+        b"h" => NONE,
+        b"re" => NUM4,
+        // path painting, Table 60; clipping, Table 61
+        b"S" | b"s" | b"f" | b"F" | b"f*" | b"B" | b"B*" | b"b" | b"b*" | b"n" => NONE,
+        b"W" | b"W*" => NONE,
+        // text objects, Table 107
+        b"BT" | b"ET" => NONE,
+        // text state, Table 105
+        b"Tc" | b"Tw" | b"Tz" | b"TL" | b"Ts" => NUM1,
+        b"Tf" => &[Kind::Name, Kind::Num],
+        b"Tr" => INT1,
+        // text positioning, Table 108
+        b"Td" | b"TD" => NUM2,
+        b"Tm" => NUM6,
+        b"T*" => NONE,
+        // text showing, Table 109
+        b"Tj" | b"'" => &[Kind::Str],
+        b"\"" => &[Kind::Num, Kind::Num, Kind::Str],
+        b"TJ" => &[Kind::TextArray],
+        // Type 3 fonts, Table 113
+        b"d0" => NUM2,
+        b"d1" => NUM6,
+        // colour, Table 74
+        b"CS" | b"cs" => NAME1,
+        b"SC" | b"sc" => &[Kind::Components],
+        b"SCN" | b"scn" => &[Kind::ComponentsOrPattern],
+        b"G" | b"g" => NUM1,
+        b"RG" | b"rg" => NUM3,
+        b"K" | b"k" => NUM4,
+        // shading, Table 77
+        b"sh" => NAME1,
+        // inline images, Table 92
+        b"BI" => &[Kind::Dict, Kind::Str],
+        b"ID" | b"EI" => NONE,
+        // XObjects, Table 87
+        b"Do" => NAME1,
+        // marked content, Table 320
+        b"MP" | b"BMC" => NAME1,
+        b"DP" | b"BDC" => &[Kind::Name, Kind::Props],
+        b"EMC" => NONE,
+        // compatibility, Table 32
+        b"BX" | b"EX" => NONE,
+        _ => return None,
+    })
+}
+
+/// All operators of Annex A (73 entries; `BI`/`ID`/`EI` listed separately as in the standard).
+pub const ALL_OPERATORS: &[&str] = &[
+    "b", "B", "b*", "B*", "BDC", "BI", "BMC", "BT", "BX", "c", "cm", "CS", "cs", "d", "d0", "d1", "Do", "DP", "EI", "EMC", "ET", "EX", "f", "F", "f*", "G", "g", "gs", "h", "i", "ID", "j", "J", "K", "k",
+    "l", "m", "M", "MP", "n", "q", "Q", "re", "RG", "rg", "ri", "s", "S", "SC", "sc", "SCN", "scn", "sh", "T*", "Tc", "Td", "TD", "Tf", "Tj", "TJ", "TL", "Tm", "Tr", "Ts", "Tw", "Tz", "v", "w", "W", "W*",
+    "y", "'", "\"",
+];
+
+fn kind_matches(k: Kind, o: &Obj) -> bool {
+    match k {
+        Kind::Num => matches!(o, Obj::Int(_)) || matches!(o, Obj::Real(r) if r.is_finite()),
+        Kind::Int => matches!(o, Obj::Int(_)),
+        Kind::Name => matches!(o, Obj::Name(_)),
+        Kind::Str => matches!(o, Obj::Str(_)),
+        Kind::NumArray => matches!(o, Obj::Array(a) if a.iter().all(|x| kind_matches(Kind::Num, x))),
+        Kind::TextArray => matches!(o, Obj::Array(a) if a.iter().all(|x| kind_matches(Kind::Num, x) || matches!(x, Obj::Str(_)))),
+        Kind::Props => matches!(o, Obj::Name(_) | Obj::Dict(_)),
+        Kind::Dict => matches!(o, Obj::Dict(_)),
+        Kind::Components | Kind::ComponentsOrPattern => false,
+    }
+}
+
+/// Check an operand list against [`operand_spec`]. `Err(("count"|"type"|"unknown", message))`.
+pub fn check_operands(op: &[u8], operands: &[Obj]) -> Result<(), (&'static str, String)> {
+    let name = String::from_utf8_lossy(op).into_owned();
+    let Some(spec) = operand_spec(op) else { return Err(("unknown", format!("'{name}' is not a content-stream operator"))) };
+    match spec {
+        [Kind::Components] => {
+            if operands.is_empty() || operands.len() > 32 {
+                return Err(("count", format!("'{name}' takes 1..=32 numbers, got {}", operands.len())));
+            }
+            if let Some(bad) = operands.iter().find(|o| !kind_matches(Kind::Num, o)) {
+                return Err(("type", format!("'{name}' operand {bad:?} is not a number")));
+            }
+            Ok(())
+        }
+        [Kind::ComponentsOrPattern] => {
+            if operands.is_empty() || operands.len() > 33 {
+                return Err(("count", format!("'{name}' takes 0..=32 numbers and an optional name, got {}", operands.len())));
+            }
+            let (last, init) = operands.split_last().unwrap();
+            let nums = if matches!(last, Obj::Name(_)) { init } else { operands };
+            if let Some(bad) = nums.iter().find(|o| !kind_matches(Kind::Num, o)) {
+                return Err(("type", format!("'{name}' operand {bad:?} is not a number")));
+            }
+            Ok(())
+        }
+        _ => {
+            if operands.len() != spec.len() {
+                return Err(("count", format!("'{name}' takes {} operand(s), got {}", spec.len(), operands.len())));
+            }
+            for (i, (k, o)) in spec.iter().zip(operands).enumerate() {
+                if !kind_matches(*k, o) {
+                    return Err(("type", format!("'{name}' operand {i} should be {k:?}, got {} {o:?}", o.type_name())));
+                }
+            }
+            Ok(())
+        }
+    }
+}
+
+#[derive(Debug, Clone, Copy, PartialEq, Eq)]
+pub enum IssueKind {
+    /// a token the syntax does not allow (raw bytes in names, `#` misuse, stray text …)
+    Token,
+    /// a number-like token that is not a PDF number (`NaN`, `inf`, `-inf`, `1e5`, `1.2.3`, `--1`)
+    Number,
+    /// keyword that is not an operator of Annex A, outside a `BX … EX` section
+    UnknownOperator,
+    /// wrong number of operands
+    OperandCount,
+    /// operand of the wrong type (including indirect references, non-finite reals)
+    OperandType,
+    /// operands left on the stack at the end of the stream
+    Dangling,
+    /// unbalanced `q/Q`, `BT/ET`, marked content, `BX/EX`
+    Nesting,
+}
+
+#[derive(Debug, Clone, PartialEq)]
+pub struct Issue {
+    pub kind: IssueKind,
+    /// byte offset of the token the issue is about
+    pub pos: usize,
+    /// index in `ops` of the instruction the issue is about (`ops.len()` for end-of-stream issues)
+    pub op_index: usize,
+    pub msg: String,
+}
+
+#[derive(Debug, Clone, Default)]
+pub struct Parsed {
+    pub ops: Vec<Op>,
+    /// only filled when parsing with `strict = true`
+    pub issues: Vec<Issue>,
+    /// operands after the last operator
+    pub trailing_operands: Vec<Obj>,
+}
+
+/// Lenient parse: the operator list, or `Err` when the bytes cannot be tokenised.
+pub fn parse_content(bytes: &[u8]) -> Result<Vec<Op>, String> {
+    parse(bytes, false).map(|p| p.ops)
+}
+
+/// Strict parse: operator list plus every deviation from the standard found on the way.
+pub fn parse_content_strict(bytes: &[u8]) -> Result<(Vec<Op>, Vec<Issue>), String> {
+    parse(bytes, true).map(|p| (p.ops, p.issues))
+}
+
+fn looks_non_finite(tok: &[u8]) -> bool {
+    let t: Vec<u8> = tok.iter().map(|c| c.to_ascii_lowercase()).collect();
+    let t = t.strip_prefix(b"+").or_else(|| t.strip_prefix(b"-")).unwrap_or(&t);
+    matches!(t, b"nan" | b"inf" | b"infinity")
+}
+
+fn contains_ref_or_bad_real(o: &Obj) -> Option<String> {
+    match o {
+        Obj::Ref(n, g) => Some(format!("indirect reference {n} {g} R")),
+        Obj::Stream(_) => Some("stream object".into()),
+        Obj::Real(r) if !r.is_finite() => Some("non-finite real".into()),
+        Obj::Array(a) => a.iter().find_map(contains_ref_or_bad_real),
+        Obj::Dict(d) => d.iter().find_map(|(_, v)| contains_ref_or_bad_real(v)),
+        _ => None,
+    }
+}
+
+pub fn parse(bytes: &[u8], strict: bool) -> Result<Parsed, String> {
+    let mut p = Parser::new(bytes, 0);
+    let mut out = Parsed::default();
+    let mut stack: Vec<Obj> = Vec::new();
+    let mut stack_pos: usize = 0;
+    // nesting bookkeeping (strict only)
+    let mut q_depth: i64 = 0;
+    let mut bt_open = false;
+    let mut mc_depth: i64 = 0;
+    let mut bx_depth: i64 = 0;
+    let issue = |out: &mut Parsed, kind: IssueKind, pos: usize, msg: String| {
+        if strict {
+            let op_index = out.ops.len();
+            out.issues.push(Issue { kind, pos, op_index, msg });
+        }
+    };
+    loop {
+        p.skip_ws();
+        let Some(c) = p.peek() else { break };
+        let tok_pos = p.pos;
+        if stack.is_empty() {
+            stack_pos = tok_pos;
+        }
+        match c {
+            b'/' | b'(' | b'<' | b'[' => {
+                let before = p.issues.len();
+                let o = p.parse_object().map_err(|e| e.to_string())?;
+                for m in p.issues.drain(before..).collect::<Vec<_>>() {
+                    issue(&mut out, IssueKind::Token, tok_pos, m);
+                }
+                stack.push(o);
+            }
+            b')' | b'>' | b']' | b'{' | b'}' => {
+                return Err(format!("syntax error at byte {tok_pos}: unexpected delimiter '{}'", c as char));
+            }
+            _ => {
+                // a run of regular characters: number, true/false/null, or operator keyword
+                let mut e = p.pos;
+                while e < bytes.len() && is_regular(bytes[e]) {
+                    e += 1;
+                }
+                let tok = &bytes[tok_pos..e];
+                p.pos = e;
+                let numeric_start = matches!(c, b'+' | b'-' | b'.' | b'0'..=b'9');
+                if numeric_start {
+                    match parse_number_token(tok) {
+                        Ok(n) => {
+                            stack.push(n);
+                            continue;
+                        }
+                        Err(m) => {
+                            issue(&mut out, IssueKind::Number, tok_pos, format!("{m} at byte {tok_pos}"));
+                            // falls through: treated as an (unknown) keyword
+                        }
+                    }
+                }
+                match tok {
+                    b"true" => {
+                        stack.push(Obj::Bool(true));
+                        continue;
+                    }
+                    b"false" => {
+                        stack.push(Obj::Bool(false));
+                        continue;
+                    }
+                    b"null" => {
+                        stack.push(Obj::Null);
+                        continue;
+                    }
+                    _ => {}
+                }
+                if tok == b"BI" {
+                    let (dict, data) = inline_image(&mut p)?;
+                    if strict && !stack.is_empty() {
+                        issue(&mut out, IssueKind::OperandCount, stack_pos, format!("'BI' takes no operands, got {}", stack.len()));
+                    }
+                    let before = p.issues.len();
+                    let _ = before;
+                    for m in p.issues.drain(..).collect::<Vec<_>>() {
+                        issue(&mut out, IssueKind::Token, tok_pos, m);
+                    }
+                    stack.clear();
+                    out.ops.push(Op { operator: b"BI".to_vec(), operands: vec![Obj::Dict(dict), Obj::Str(data)] });
+                    continue;
+                }
+                let operands = std::mem::take(&mut stack);
+                if strict {
+                    if !numeric_start && looks_non_finite(tok) {
+                        issue(&mut out, IssueKind::Number, tok_pos, format!("non-finite number token {:?} at byte {tok_pos}", String::from_utf8_lossy(tok)));
+                    } else if tok.iter().any(|b| !(0x21..=0x7e).contains(b)) {
+                        issue(&mut out, IssueKind::Token, tok_pos, format!("keyword with non-printable bytes at byte {tok_pos}"));
+                    }
+                    for o in &operands {
+                        if let Some(what) = contains_ref_or_bad_real(o) {
+                            issue(&mut out, IssueKind::OperandType, stack_pos, format!("{what} as operand of '{}'", String::from_utf8_lossy(tok)));
+                        }
+                    }
+                    match check_operands(tok, &operands) {
+                        Ok(()) => {}
+                        Err(("unknown", m)) => {
+                            if bx_depth <= 0 && !(numeric_start || looks_non_finite(tok)) {
+                                issue(&mut out, IssueKind::UnknownOperator, tok_pos, format!("{m} (byte {tok_pos})"));
+                            }
+                        }
+                        Err(("count", m)) => issue(&mut out, IssueKind::OperandCount, tok_pos, format!("{m} (byte {tok_pos})")),
+                        Err((_, m)) => issue(&mut out, IssueKind::OperandType, tok_pos, format!("{m} (byte {tok_pos})")),
+                    }
+                    match tok {
+                        b"q" => q_depth += 1,
+                        b"Q" => {
+                            q_depth -= 1;
+                            if q_depth < 0 {
+                                issue(&mut out, IssueKind::Nesting, tok_pos, format!("'Q' without matching 'q' at byte {tok_pos}"));
+                                q_depth = 0;
+                            }
+                        }
+                        b"BT" => {
+                            if bt_open {
+                                issue(&mut out, IssueKind::Nesting, tok_pos, format!("'BT' inside a text object at byte {tok_pos}"));
+                            }
+                            bt_open = true;
+                        }
+                        b"ET" => {
+                            if !bt_open {
+                                issue(&mut out, IssueKind::Nesting, tok_pos, format!("'ET' without 'BT' at byte {tok_pos}"));
+                            }
+                            bt_open = false;
+                        }
+                        b"BMC" | b"BDC" => mc_depth += 1,
+                        b"EMC" => {
+                            mc_depth -= 1;
+                            if mc_depth < 0 {
+                                issue(&mut out, IssueKind::Nesting, tok_pos, format!("'EMC' without 'BMC'/'BDC' at byte {tok_pos}"));
+                                mc_depth = 0;
+                            }
+                        }
+                        b"BX" => bx_depth += 1,
+                        b"EX" => {
+                            bx_depth -= 1;
+                            if bx_depth < 0 {
+                                issue(&mut out, IssueKind::Nesting, tok_pos, format!("'EX' without 'BX' at byte {tok_pos}"));
+                                bx_depth = 0;
+                            }
+                        }
+                        _ => {}
+                    }
+                }
+                out.ops.push(Op { operator: tok.to_vec(), operands });
+            }
+        }
+    }
+    if strict {
+        let end = bytes.len();
+        if !stack.is_empty() {
+            issue(&mut out, IssueKind::Dangling, stack_pos, format!("{} operand(s) after the last operator", stack.len()));
+        }
+        if q_depth > 0 {
+            issue(&mut out, IssueKind::Nesting, end, format!("{q_depth} 'q' without 'Q'"));
+        }
+        if bt_open {
+            issue(&mut out, IssueKind::Nesting, end, "'BT' without 'ET'".into());
+        }
+        if mc_depth > 0 {
+            issue(&mut out, IssueKind::Nesting, end, format!("{mc_depth} marked-content sequence(s) not closed"));
+        }
+        if bx_depth > 0 {
+            issue(&mut out, IssueKind::Nesting, end, format!("{bx_depth} 'BX' without 'EX'"));
+        }
+    }
+    out.trailing_operands = stack;
+    Ok(out)
+}
+
+/// After the `BI` keyword: key/value pairs, `ID`, one white-space byte, data, `EI`.
+fn inline_image(p: &mut Parser) -> Result<(Dict, Vec<u8>), String> {
+    let mut d = Dict::new();
+    loop {
+        p.skip_ws();
+        match p.peek() {
+            None => return Err("inline image: no 'ID' after 'BI'".into()),
+            Some(b'/') => {
+                let k = match p.parse_object().map_err(|e| e.to_string())? {
+                    Obj::Name(n) => n,
+                    _ => unreachable!(),
+                };
+                p.skip_ws();
+                if p.at_end() {
+                    return Err("inline image: key without value".into());
+                }
+                // a value is an ordinary object, but never a keyword other than true/false/null
+                let v = p.parse_object().map_err(|e| format!("inline image value: {e}"))?;
+                d.0.push((k, v));
+            }
+            Some(_) => {
+                if p.keyword(b"ID") {
+                    break;
+                }
+                return Err(format!("inline image: expected a name key or 'ID' at byte {}", p.pos));
+            }
+        }
+    }
+    let b = p.b;
+    // §8.9.7: ID is followed by a single white-space character
+    if p.peek().map(is_ws).unwrap_or(false) {
+        p.pos += 1;
+    } else if !p.at_end() {
+        p.issues.push(format!("'ID' not followed by a white-space character at byte {}", p.pos));
+    }
+    let start = p.pos;
+    let ei_at = |at: usize| -> bool { b.len() >= at + 2 && &b[at..at + 2] == b"EI" && b.get(at + 2).map(|c| !is_regular(*c)).unwrap_or(true) };
+    // PDF 2.0 /L (/Length): trusted only when it lands on white-space* EI
+    let declared = d.get("L").or_else(|| d.get("Length")).and_then(|o| o.as_int());
+    if let Some(l) = declared {
+        if l >= 0 && start + (l as usize) <= b.len() {
+            let mut e = start + l as usize;
+            while e < b.len() && is_ws(b[e]) {
+                e += 1;
+            }
+            if ei_at(e) {
+                p.pos = e + 2;
+                return Ok((d, b[start..start + l as usize].to_vec()));
+            }
+        }
+    }
+    // scan: first EI keyword that is preceded by white space (the byte after ID counts)
+    let mut at = start;
+    while at + 2 <= b.len() {
+        if ei_at(at) && (at == start || is_ws(b[at - 1])) {
+            let data_end = if at == start { start } else { at - 1 };
+            p.pos = at + 2;
+            return Ok((d, b[start..data_end].to_vec()));
+        }
+        at += 1;
+    }
+    Err(format!("inline image: no 'EI' after 'ID' at byte {start}"))
+}
+
+/// Serialise an operator list: operands separated by single spaces, one instruction per
+/// line. Inline images (`BI` with `[Dict, Str]`) are written in the `BI … ID data EI` form.
+pub fn write_content(ops: &[Op]) -> Vec<u8> {
+    let mut out = Vec::new();
+    for op in ops {
+        if op.operator == b"BI" && op.operands.len() == 2 {
+            if let (Obj::Dict(d), Obj::Str(data)) = (&op.operands[0], &op.operands[1]) {
+                out.extend_from_slice(b"BI");
+                for (k, v) in d.iter() {
+                    out.push(b' ');
+                    crate::syntax::write_name(k, &mut out);
+                    out.push(b' ');
+                    write_obj(v, &mut out);
+                }
+                out.extend_from_slice(b"\nID\n");
+                out.extend_from_slice(data);
+                out.extend_from_slice(b"\nEI\n");
+                continue;
+            }
+        }
+        for o in &op.operands {
+            write_obj(o, &mut out);
+            out.push(b' ');
+        }
+        out.extend_from_slice(&op.operator);
+        out.push(b'\n');
+    }
+    out
+}
+
+#[cfg(test)]
+mod tests {
+    use super::*;
+
+    fn ops(s: &[u8]) -> Vec<Op> {
+        parse_content(s).unwrap()
+    }
+    fn strict_ok(s: &[u8]) -> Vec<Op> {
+        let (o, i) = parse_content_strict(s).unwrap();
+        assert!(i.is_empty(), "{i:?}");
+        o
+    }
+    fn kinds(s: &[u8]) -> Vec<IssueKind> {
+        parse_content_strict(s).unwrap().1.into_iter().map(|i| i.kind).collect()
+    }
+
+    #[test]
+    fn table_is_complete() {
+        // Annex A lists 73 operators
+        assert_eq!(ALL_OPERATORS.len(), 73);
+        for o in ALL_OPERATORS {
+            assert!(operand_spec(o.as_bytes()).is_some(), "{o}");
+        }
+        let mut s: Vec<&str> = ALL_OPERATORS.to_vec();
+        s.sort();
+        s.dedup();
+        assert_eq!(s.len(), 73);
+        assert!(operand_spec(b"R").is_none());
+        assert!(operand_spec(b"obj").is_none());
+    }
+
+    #[test]
+    fn spec_example_7_8_2_and_text() {
+        // ISO 32000-1 §9.2.2 EXAMPLE (Hello-world text object)
+        let o = strict_ok(b"BT\n/F13 12 Tf\n288 720 Td\n(ABC) Tj\nET");
+        assert_eq!(o.len(), 5);
+        assert_eq!(o[1], Op::new("Tf", vec![Obj::name("F13"), Obj::Int(12)]));
+        assert_eq!(o[2], Op::new("Td", vec![Obj::Int(288), Obj::Int(720)]));
+        assert_eq!(o[3], Op::new("Tj", vec![Obj::str(b"ABC")]));
+        // §9.4.3 TJ example
+        let o = strict_ok(b"BT [(A) 120 (W) 120 (A) 95 (Y again)] TJ ET");
+        assert_eq!(o[1].operands[0].as_array().unwrap().len(), 7);
+        // §8.5.2.1-like path: 'x y m', curves, closing and painting, star operators
+        let o = strict_ok(b"q 1 0 0 1 50 50 cm 0 0 m 10 10 l 1 2 3 4 5 6 c 1 2 3 4 v 1 2 3 4 y h 0 0 5 5 re W* n f* B* b* S Q");
+        assert_eq!(o.iter().map(|x| x.name()).collect::<Vec<_>>().join(" "), "q cm m l c v y h re W* n f* B* b* S Q");
+    }
+
+    #[test]
+    fn quote_operators_and_no_whitespace() {
+        // ' and " are regular characters: they form keywords of their own after a delimiter
+        let o = strict_ok(b"BT (a)' 1 2(b)\" [(x)-3.5(y)]TJ/F1 9 Tf T* ET");
+        assert_eq!(o[1], Op::new("'", vec![Obj::str(b"a")]));
+        assert_eq!(o[2], Op::new("\"", vec![Obj::Int(1), Obj::Int(2), Obj::str(b"b")]));
+        assert_eq!(o[3].name(), "TJ");
+        assert_eq!(o[3].operands[0].as_array().unwrap()[1], Obj::Real(-3.5));
+        assert_eq!(o[4], Op::new("Tf", vec![Obj::name("F1"), Obj::Int(9)]));
+        assert_eq!(o[5].name(), "T*");
+    }
+
+    #[test]
+    fn strings_with_every_byte() {
+        for b in 0u16..256 {
+            let s = [b'x', b as u8, b'y'];
+            let mut c = Vec::new();
+            write_obj(&Obj::str(&s), &mut c);
+            c.extend_from_slice(b" Tj");
+            let o = ops(&c);
+            // a raw CR inside a literal string reads back as LF (§7.3.4.2) — write_string escapes it
+            assert_eq!(o[0], Op::new("Tj", vec![Obj::str(&s)]), "byte {b}");
+        }
+        assert_eq!(ops(b"(a\rb) Tj")[0].operands[0], Obj::str(b"a\nb"));
+        assert_eq!(ops(b"<4869> Tj")[0].operands[0], Obj::str(b"Hi"));
+    }
+
+    #[test]
+    fn marked_content() {
+        // §14.6 examples
+        let o = strict_ok(b"/Span << /ActualText (Dru\\355) /MCID 0 >> BDC (x) Tj EMC /P /MC0 BDC EMC /T BMC EMC /N MP /N <</A 1>> DP");
+        assert_eq!(o[0].name(), "BDC");
+        assert_eq!(o[0].operands[1].dict_get("ActualText"), Some(&Obj::str(b"Dru\xed")));
+        assert_eq!(o[3], Op::new("BDC", vec![Obj::name("P"), Obj::name("MC0")]));
+    }
+
+    #[test]
+    fn colour_operators() {
+        strict_ok(b"/DeviceRGB cs 1 0 0 sc /Pattern CS /P1 SCN 0.5 0.5 0.5 /P2 scn 0.1 0.2 0.3 0.4 K 0 g 1 G 1 1 1 rg 0 0 0 RG 0 0 0 1 k /Sh0 sh");
+        assert_eq!(kinds(b"sc"), vec![IssueKind::OperandCount]);
+        assert_eq!(kinds(b"/P sc"), vec![IssueKind::OperandType]);
+        assert_eq!(kinds(b"1 2 rg"), vec![IssueKind::OperandCount]);
+        assert_eq!(kinds(b"1 2 (x) rg"), vec![IssueKind::OperandType]);
+    }
+
+    #[test]
+    fn inline_image_forms() {
+        // §8.9.7 EXAMPLE shape
+        let src = b"q BI /W 2 /H 2 /BPC 8 /CS /G ID \x00\xff EI x\nEI Q";
+        let o = ops(src);
+        assert_eq!(o.len(), 3);
+        assert_eq!(o[1].name(), "BI");
+        assert_eq!(o[1].operands[0].dict_get("W"), Some(&Obj::Int(2)));
+        // first white-space EI white-space ends the data when no /L is given
+        assert_eq!(o[1].operands[1], Obj::str(b"\x00\xff"));
+        assert_eq!(o[2].name(), "x");
+        // with /L the embedded " EI " is data
+        let o = strict_ok(b"q BI /W 2 /H 2 /BPC 8 /CS /G /L 9 ID \x00\xff EI x\nEI Q");
+        assert_eq!(o.len(), 3);
+        assert_eq!(o[1].operands[1], Obj::str(b"\x00\xff EI x"));
+        assert_eq!(o[2].name(), "Q");
+        // empty data; ASCIIHex data with EOD
+        assert_eq!(ops(b"BI ID EI")[0].operands[1], Obj::str(b""));
+        assert_eq!(ops(b"BI /F /AHx ID 00ff>\nEI")[0].operands[1], Obj::str(b"00ff>"));
+        assert!(parse_content(b"BI /W 1 ID abc").is_err());
+        assert!(parse_content(b"BI /W ID abc EI").is_err() || parse_content(b"BI /W ID abc EI").is_ok());
+        // round trip through write_content
+        let o = ops(src);
+        assert_eq!(ops(&write_content(&o)), o);
+    }
+
+    #[test]
+    fn strict_flags() {
+        assert_eq!(kinds(b"NaN 0 m"), vec![IssueKind::Number, IssueKind::OperandCount]);
+        assert_eq!(kinds(b"inf w"), vec![IssueKind::Number, IssueKind::OperandCount]);
+        assert_eq!(kinds(b"-inf w"), vec![IssueKind::Number, IssueKind::OperandCount]);
+        assert_eq!(kinds(b"1e5 w"), vec![IssueKind::Number, IssueKind::OperandCount]);
+        assert_eq!(kinds(b"1.0 J"), vec![IssueKind::OperandType]);
+        assert_eq!(kinds(b"1 J"), vec![]);
+        assert_eq!(kinds(b"0 0 foo"), vec![IssueKind::UnknownOperator]);
+        assert_eq!(kinds(b"BX 0 0 foo EX"), vec![]);
+        assert_eq!(kinds(b"1 0 R Do"), vec![IssueKind::UnknownOperator, IssueKind::OperandCount]);
+        assert_eq!(kinds(b"[1 0 R] 0 d"), vec![IssueKind::OperandType, IssueKind::OperandType]);
+        assert_eq!(kinds(b"[1 (a)] 0 d"), vec![IssueKind::OperandType]);
+        assert_eq!(kinds(b"[1 (a) /N] TJ"), vec![IssueKind::OperandType]);
+        assert_eq!(kinds(b"q 1 2"), vec![IssueKind::Dangling, IssueKind::Nesting]);
+        assert_eq!(kinds(b"Q ET EMC EX"), vec![IssueKind::Nesting; 4]);
+        assert_eq!(kinds(b"/A\x80 gs"), vec![IssueKind::Token]);
+        assert_eq!(kinds(b"/Img#201 Do"), vec![]);
+        assert_eq!(kinds(b"1 2 m l"), vec![IssueKind::OperandCount]);
+        assert_eq!(kinds(b"true Tj"), vec![IssueKind::OperandType]);
+        assert!(parse_content(b"(abc Tj").is_err());
+        assert!(parse_content(b"[1 2 0 d").is_err());
+        assert!(parse_content(b"1 2 ) m").is_err());
+        assert!(parse_content(b"<< /A 1 > BDC").is_err());
+        // comments are white space
+        assert_eq!(ops(b"1 % one\n2 m % (move\n").len(), 1);
+        assert_eq!(ops(b"").len(), 0);
+    }
+
+    #[test]
+    fn numbers() {
+        let o = ops(b"+1 -.5 4. 0.005 -0 1000000000 cm");
+        assert_eq!(o[0].operands, vec![Obj::Int(1), Obj::Real(-0.5), Obj::Real(4.0), Obj::Real(0.005), Obj::Int(0), Obj::Int(1000000000)]);
+        // "1 0 R" is not a reference in a content stream: two integers and a keyword
+        let o = ops(b"1 0 R");
+        assert_eq!(o[0], Op::new("R", vec![Obj::Int(1), Obj::Int(0)]));
+    }
+
+    #[test]
+    fn write_roundtrip() {
+        let src = b"q 0.5 0 0 -1.25 3 4 cm /GS1 gs [1 2.5] 0 d BT /F1 12 Tf (a\\(b\\\\) Tj [(x) -10 <00ff>] TJ /Span <</ActualText (y) /MCID 3>> BDC EMC ET Q";
+        let o = strict_ok(src);
+        let w = write_content(&o);
+        assert_eq!(strict_ok(&w), o);
+    }
+}
